@@ -331,3 +331,9 @@ def timepoint_text_round_trip(p, dumper, parser):
     assert tp_same_fields(q, p)
     assert q == p
     assert dumper.dump(q, q._get_dump_format()) == s
+
+
+def parse_dump_as_parsed(parser, dumper, text):
+    # C07: parsing with dump_as_parsed and converting back to text reproduces the input
+    q = parser.parse(text, dump_as_parsed=True)
+    assert dumper.dump(q, q._dump_format) == text
